@@ -25,6 +25,8 @@ DECIDED_MORE = ('Also: a literal child chosen by a search (idx.find) excludes th
 DECIDED = DECIDED + ' ' + DECIDED_MORE
 DECIDED_R6 = ('Round 6: saved alternatives retried last-in first-out and pushed whenever the node also has a wildcard child; the anonymous-wildcard prefix cannot begin an identifier; the (name, value) filter of make_params_dict tests the name only; the plain-wildcard scan starts at the cursor.')
 DECIDED = DECIDED + ' ' + DECIDED_R6
+DECIDED_R7 = ('Round 7: filter expressions compiled without flags; route objects are never falsy (truth-value recognition in the tree lookup).')
+DECIDED = DECIDED + ' ' + DECIDED_R7
 NOT_DECIDED = ('equivalence of the radix-tree search with a rule-by-rule matcher over all rule sets x paths (algorithmic '
                'equivalence over unbounded inputs); regex semantics of user filters; the rule-text parser.')
 ASSUMPTIONS = ['re.Pattern.match anchors at the start of the string it is given']
